@@ -327,10 +327,15 @@ def _fits_exactly(newarr, dtype):
     """
     try:
         with np.errstate(all='ignore'):
-            back = newarr.astype(dtype).astype(newarr.dtype)
+            cast = newarr.astype(dtype)
+            back = cast.astype(newarr.dtype)
     except (OverflowError, ValueError, TypeError):
         return False
-    return bool(np.all((back == newarr) | ((back != back) & (newarr != newarr))))
+    same = (back == newarr) | ((back != back) & (newarr != newarr))
+    if np.dtype(dtype).kind in 'iu' and newarr.dtype.kind in 'iu':
+        # signed <-> unsigned of the same width: the round trip is the identity (wrap-around twice)
+        same = same & ((cast < 0) == (newarr < 0))
+    return bool(np.all(same))
 
 def _maybe_cast_type(values, newval):
     """ cast rules (chosen so that no information is lost), especially
